@@ -32,6 +32,14 @@ impl<'a, I: crate::Input> CountedInput<'a, I> {
 	pub fn count(&self) -> u64 {
 		self.counter
 	}
+
+	/// Verification hook (off by default): a `CountedInput` whose counter starts at `start`, so
+	/// that the saturation behaviour can be observed without delivering 2^64 bytes.
+	#[cfg(psc_verif)]
+	#[doc(hidden)]
+	pub fn verif_with_count(input: &'a mut I, start: u64) -> Self {
+		Self { input, counter: start }
+	}
 }
 
 impl<I: crate::Input> crate::Input for CountedInput<'_, I> {
